@@ -58,7 +58,14 @@ type finding struct {
 	Property, Sig, Replay, What string
 }
 
-const verifDir = "/verif"
+// verifDir is the framework root: the directory ./check lives in (it cd's there first).
+var verifDir = func() string {
+	d, err := os.Getwd()
+	if err != nil || d == "" {
+		return "/verif"
+	}
+	return d
+}()
 
 func die2(format string, args ...interface{}) {
 	fmt.Printf("INCONCLUSIVE: "+format+"\n", args...)
